@@ -6,7 +6,7 @@ import vlib
 
 RULE = ("Events.tla holds the specification's event-type tables per event kind and the dispatch / content / Raw laws; TLC checks the "
         "tables' sanity and enumerates the dispatch table (kind x known and unknown types x format x redacted). The harness "
-        "generates events from 77 spec-derived samples (22 state, 21 message-like, ephemeral, global / room account data, to-device; "
+        "generates events from 87 spec-derived samples (22 state, 21 message-like, ephemeral, global / room account data, to-device; "
         "unknown types of each kind; a wildcard type with dotted suffix; near-misses of known and wildcard types such as m.secret_storage.keys): all optional fields present, each absent, all absent, an "
         "unknown content field, an unknown top-level field, keys in reversed order, sync / full / stripped formats, original and "
         "redacted (content redacted for room versions 1 and 11) and deserializes each into every applicable Any*Event enum. "
@@ -54,7 +54,7 @@ def run(rep, tier):
     rep.cov["distinct_nontrivial"] = len({(r["sample"], r["variant"], r["format"], r["redacted_in"], r["rv"], r["extras"], r["target"]) for r in recs})
     rep.cov["exhaustive"] = False
     rep.cov["rule"] = RULE
-    rep.assumptions += ["field-level fidelity of every content type is sampled by the 77 schema samples, not proven per field",
+    rep.assumptions += ["field-level fidelity of every content type is sampled by the 87 schema samples, not proven per field",
                         "typed content laws apply to original events of known types (ruma does not retain the content of custom types)",
                         "the catch-all variant is recognised from the derived Debug text of the event enums"]
 
